@@ -675,6 +675,18 @@ class SimFS:
 FS = SimFS()
 
 
+def _fs_eio(name, path):
+    """An I/O error that is not a crash: the k-th operation of this kind raises OSError."""
+    sim = Sim.current
+    if sim is None or not sim.eio or sim.eio[0] != name:
+        return
+    k = sim.ordinal(("eio", name))
+    if k == int(sim.eio[1]):
+        sim.fired["eio_" + name] += 1
+        sim.event("eio", name, _real_os.path.basename(str(path)), k)
+        raise OSError(errno.EIO, "Input/output error (simulated)", str(path))
+
+
 def _fs_op(name, path):
     """Every mutating file-system operation is a possible crash point: die just before the k-th one."""
     sim = Sim.current
@@ -740,6 +752,7 @@ def sim_open(file, mode="r", *a, **kw):
         return w
     if "w" in mode or "x" in mode:
         _fs_op("open_write", p)
+        _fs_eio("open_write", p)
         if sim is not None and sim.crash_open is not None:
             k = sim.ordinal("open_w")
             if k == sim.crash_open:
@@ -753,6 +766,7 @@ def sim_open(file, mode="r", *a, **kw):
         return _SimWriter(p)
     if p not in FS.files:
         raise FileNotFoundError(errno.ENOENT, "No such file (simulated)", p)
+    _fs_eio("read", p)
     if sim is not None:
         sim.probes["cache_file_reads"] += 1
     if "b" in mode:
@@ -833,6 +847,7 @@ class _SimOs(types.ModuleType):
         if FS.is_sim(src) or FS.is_sim(dst):
             s, d = FS.norm(src), FS.norm(dst)
             _fs_op("replace", d)
+            _fs_eio("replace", d)
             FS.files[d] = FS.files.pop(s)
             return
         return _real_os.replace(src, dst)
